@@ -72,6 +72,8 @@ func runC02(c *Ctx) {
 	ruleLogWritesReachFile(c, "C02.33")
 	ruleRecordOwnsPayload(c, "C02.34")
 	ruleErrorsWrappedWithW(c, "C02.35")
+	c.Rule("C02.36", "pages reach the data file only through the flush: the data file is written only by (*os.File).WriteAt calls inside the exclusive section of the flush (or reached only from it / from CREATE DATABASE before the database exists) — a page written at allocation time, outside the flush, is on disk with an offset the header and the log know nothing about; redo then re-creates split pages at other offsets than the logged catalog update names")
+	checkDataFileWrites(c, "C02.36")
 	ruleErrorsNotDropped(c, "C02.16", "storage.(*BTree).insert", "storage.(*RelationService).Insert", "storage.(*RelationService).MarkDeleted", "storage.(*RelationService).FlushWALBatch")
 }
 
